@@ -205,6 +205,7 @@ def r09c(ck, fb):
             srcs = [cfg.strip_calls(sc, cfg.describe_operand(sc, x)) for x in d['term']['args']]
             if any(x['k'] == 'place' and x['fields'][-1:] == ['md5'] for x in srcs) and cfg.edge_polarity(t0, lab0) is False:
                 esc.add((s0, d0, lab0))
+    esc |= _applied_again_edges(fb, sc)
     leaks = []
     for (s0, d0, lab0) in some_edges:
         free = cfg.reach_from(sc, [d0], blocked_blocks={s.bb for s in uv}, blocked_edges=esc)
@@ -213,6 +214,46 @@ def r09c(ck, fb):
                'for a key that exists set_config can return without update_value on a path that is not the "same md5" return: a publish with different '
                'content is acknowledged and dropped (e.g. when two leaders drew the same history id around an election)',
                'the md5-equality return is the only way around update_value')
+    r09p(ck, fb, sc, uv)
+
+
+def _applied_again_edges(fb, sc):
+    """switch edges taken exactly when the publish carries the APPLIED content of an entry that holds a temporary value: the decision derives
+    from a comparison (eq) of an md5 with get_md5 of a history item's content - in set_config itself or in the closure handed to Option::map /
+    is_some_and / map_or on `histories.last()`"""
+    def cmp_call(term):
+        nm = cfg.callee_name(term) or ''
+        if not re.search(r'Option::<.*>::(map|is_some_and|map_or|filter)$', nm):
+            return False
+        for cb in util.closures_passed(fb, sc, term):
+            reg = util.region(fb, cb, 1)
+            if any(x.calls(r'get_md5$') for x in reg) and any(x.calls(r'::(eq|ne)$') for x in reg) and \
+                    any('content' in util.read_fields(x) for x in reg):
+                return True
+        return False
+    t = Taint(sc, call_src=cmp_call)
+    th = Taint(sc, place_src=field_place_src('histories'))
+    out = set()
+    for (s0, d0, lab0, t0) in cfg.switch_edges(sc):
+        if t.op_tainted(t0['discr']) and cfg.edge_polarity(t0, lab0) is True:
+            # the compared item comes from the entry's history
+            if any(cmp_call(x.term) and any(th.op_tainted(a) for a in x.args) for x in sc.sites if x.callee):
+                out.add((s0, d0, lab0))
+    return out
+
+
+def r09p(ck, fb, sc, uv, R='R09p'):
+    ck.rule(R, '"one history entry per publish that changed the content" - the content that counts is the APPLIED one: while an entry holds the '
+               'temporary value of a routed publish (tmp), its content / md5 fields show that value and the applied content is the newest history '
+               'item. set_config decides "no change" for a tmp entry by comparing the md5 of the publish with the md5 of that history item\'s '
+               'content, and then only drops the temporary value. Without it a republish of the applied content under a temporary value pushes '
+               'a history item on that follower only (log: publish A, publish A, publish B; SetTmpValue(B) in between: history [B, A, A] there, '
+               '[B, A] on the leader and after a replay)')
+    edges = _applied_again_edges(fb, sc)
+    ck.require(bool(edges), R, 'set_config:tmp-entry-compared-with-applied-content', sc.where(),
+               'for an entry that holds a temporary value set_config never compares the publish with the APPLIED content (the newest history item): a '
+               'publish that repeats the applied content is recorded as a change on the node that routed another publish meanwhile, and on no other '
+               'node - the same log gives different histories (leader [B, A], that follower [B, A, A])', 'compared with the newest history item')
 
 
 def r09d(ck, fb):
